@@ -73,6 +73,14 @@ def run_trace_property(prop, tier, seed, jobs, model_runs=(), assumptions=None, 
         else:
             log("[unreproduced] %s" % json.dumps(rec["v"]))
     st = engine.exec_stats(jobs)
+    conf = engine.conformance(jobs)
+    if conf["executions_with_model_prediction"]:
+        if conf["matched"] != conf["executions_with_model_prediction"]:
+            for d in conf["drift_samples"][:3]:
+                print("DRIFT design-model prediction differs: cfg=%s tag=%s expected=%s observed=%s"
+                      % (d["cfg"], d["header"].get("tag"), d["expected"], d["observed"]))
+        print("[%s] design-model conformance: %d of %d model-generated executions returned exactly the predicted addresses"
+              % (prop, conf["matched"], conf["executions_with_model_prediction"]))
     kf_seen = {}
     for kf, v, job, xn in known:
         kf_seen.setdefault(kf["id"], kf)
@@ -92,6 +100,7 @@ def run_trace_property(prop, tier, seed, jobs, model_runs=(), assumptions=None, 
         "transitions": sum(m["generated"] for m in mres) + st["events"],
         "design_models": [{k: m[k] for k in ("module", "cfg", "expect", "outcome", "distinct", "generated", "wall_s", "as_expected")} for m in mres],
         "trace_validation_states": sum(j.stats.get("tlc_states", 0) for j in jobs),
+        "design_model_conformance": conf,
         "traces_validated_against_impl": st["executions"],
         "evaluations": st["executions"],
         "distinct_nontrivial": st["distinct_nontrivial"],
